@@ -86,6 +86,9 @@ pub struct Kanata {
     /// Index into `cfg_paths`, used to know which file to live reload. Changes when cycling
     /// through the configuration files.
     pub cur_cfg_idx: usize,
+    /// Index of the configuration file that is in effect: the one that was loaded successfully
+    /// most recently. `cur_cfg_idx` goes back to it when a reload fails.
+    loaded_cfg_idx: usize,
     /// The potential key outputs of every key input. Used for managing key repeat.
     pub key_outputs: cfg::KeyOutputs,
     /// Handle to the keyberon library layout.
@@ -357,6 +360,7 @@ impl Kanata {
             kbd_out,
             cfg_paths: args.paths.clone(),
             cur_cfg_idx: 0,
+            loaded_cfg_idx: 0,
             key_outputs: cfg.key_outputs,
             layout: cfg.layout,
             layer_info: cfg.layer_info,
@@ -494,6 +498,7 @@ impl Kanata {
             kbd_out,
             cfg_paths: vec!["config string".into()],
             cur_cfg_idx: 0,
+            loaded_cfg_idx: 0,
             key_outputs: cfg.key_outputs,
             layout: cfg.layout,
             layer_info: cfg.layer_info,
@@ -605,6 +610,9 @@ impl Kanata {
             Ok(c) => c,
             Err(e) => {
                 log::error!("{e:?}");
+                // The file in effect is still the one loaded before; a plain reload must not retry
+                // the file that failed.
+                self.cur_cfg_idx = self.loaded_cfg_idx;
                 bail!("failed to parse config file");
             }
         };
@@ -661,6 +669,7 @@ impl Kanata {
         }
 
         *MAPPED_KEYS.lock() = cfg.mapped_keys;
+        self.loaded_cfg_idx = self.cur_cfg_idx;
         log::info!("Live reload successful");
         #[cfg(feature = "tcp_server")]
         if let Some(tx) = _tx {
@@ -797,6 +806,7 @@ impl Kanata {
             self.live_reload_requested = false;
             if let Err(e) = self.do_live_reload(tx) {
                 log::error!("live reload failed {e}");
+                self.cur_cfg_idx = self.loaded_cfg_idx;
             }
         }
 
@@ -1272,9 +1282,9 @@ impl Kanata {
                         }
                         CustomAction::LiveReloadNum(n) => {
                             let n = usize::from(*n);
-                            live_reload_requested = true;
                             match self.cfg_paths.get(n) {
                                 Some(path) => {
+                                    live_reload_requested = true;
                                     self.cur_cfg_idx = n;
                                     log::info!("Requested live reload of file: {}", path.display(),);
                                 }
